@@ -70,5 +70,41 @@ theorem updatePoliciesWN_eq (e : Enf) (sec pt : String) (olds news : List Rule) 
         | none => (e, .err false)
         | some s0 => if !updatable s0 olds news then (e, .ok false) else e.updatePoliciesBody sec pt olds news := rfl
 
+/-- the guard lets a batch through only if every old rule it pairs is held (whatever was seen before) -/
+theorem updatableFrom_has (s : Store) : ∀ (ps : List (Rule × Rule)) (seenOld seenNew : List String),
+    updatableFrom s seenOld seenNew ps = true → ∀ p ∈ ps, s.has p.1 = true := by
+  intro ps
+  induction ps with
+  | nil => intro _ _ _ p hp; cases hp
+  | cons q rest ih =>
+    obtain ⟨o, n⟩ := q
+    intro seenOld seenNew h p hp
+    unfold updatableFrom at h
+    cases hho : s.has o with
+    | false => simp [hho] at h
+    | true =>
+      rcases List.mem_cons.1 hp with rfl | hp
+      · exact hho
+      · simp only [hho, Bool.not_true, Bool.false_eq_true, if_false] at h
+        split at h
+        · cases h
+        · split at h
+          · exact ih _ _ h p hp
+          · split at h
+            · cases h
+            · split at h
+              · cases h
+              · exact ih _ _ h p hp
+
+/-- what the clause of `opWF10` on batch updates used to assume, now provided by the guard: a batch that
+    `updatable` lets through names held old rules only -/
+theorem updatable_olds_has {s : Store} {olds news : List Rule} (h : updatable s olds news = true)
+    (hlen : olds.length = news.length) : ∀ o ∈ olds, s.has o = true := by
+  intro o ho
+  have hm : o ∈ (olds.zip news).map Prod.fst := by
+    rw [List.map_fst_zip (Nat.le_of_eq hlen)]; exact ho
+  obtain ⟨p, hp, rfl⟩ := List.mem_map.1 hm
+  exact updatableFrom_has s _ _ _ h p hp
+
 end Enf
 end Casbin
